@@ -90,6 +90,7 @@ func (v *VerifLoop) ListenerFds() (fds []int) {
 	}
 	return
 }
+
 // ListenerAddr is the address the i-th listener is really bound to (getsockname).
 func (v *VerifLoop) ListenerAddr(i int) string {
 	sa, err := unix.Getsockname(v.lns[i].fd)
